@@ -897,6 +897,9 @@ func leafFieldPaths(t types.Type, prefix []int, out []fieldPath) ([]fieldPath, b
 		return append(out, fieldPath{cp(1), SPtr}, fieldPath{cp(2), SInt}, fieldPath{cp(3), SInt}, fieldPath{cp(4), SInt}), true
 	case kIface:
 		return append(out, fieldPath{cp(5), SInt}, fieldPath{cp(6), SPtr}), true
+	case kArray:
+		// an element of an array field: step -1 stands for elt(_, any index)
+		return leafFieldPaths(t.Underlying().(*types.Array).Elem(), cp(-1), out)
 	}
 	return out, false
 }
